@@ -272,14 +272,18 @@ func (c *cfgFloat) toUint(*options) (uint64, error) {
 	if c.f < 0 {
 		return 0, ErrNegative
 	}
-	if c.f > math.MaxUint64 {
+	// math.MaxUint64 is not representable as float64 and rounds up to 2^64,
+	// so the upper bound must be exclusive. NaN fails every comparison.
+	if math.IsNaN(c.f) || c.f >= math.MaxUint64 {
 		return 0, ErrOverflow
 	}
 	return uint64(c.f), nil
 }
 
 func (c *cfgFloat) toInt(*options) (int64, error) {
-	if c.f < math.MinInt64 || math.MaxInt64 < c.f {
+	// math.MaxInt64 is not representable as float64 and rounds up to 2^63,
+	// so the upper bound must be exclusive. NaN fails every comparison.
+	if math.IsNaN(c.f) || c.f < math.MinInt64 || c.f >= math.MaxInt64 {
 		return 0, ErrOverflow
 	}
 	return int64(c.f), nil
